@@ -21,7 +21,7 @@
    The liveness half of the property text ("it does return", "never waits forever") is not a property of
    finite accepted histories.  Its model-level core is proved below as two ENABLEDNESS theorems
    (C04_run_can_return, C04_waiter_released, C04_own_step_enabled, C04_spawned_can_begin,
-   C04_progress_modulo_busy: in every reachable state
+   C04_progress_modulo_busy, C04_progress_partial: in every reachable state
    the step in question is possible);
    they are NOT a fairness or termination proof - that every process does reach a terminal state, and that the
    scheduler eventually runs the enabled step, is covered only by the monitor-only test of checks/C04.py
@@ -33,7 +33,7 @@
    is accepted only after do_spawn (waitGroup.Add) of i. *)
 From Coq Require Import List ZArith NArith Bool.
 From PC.Base Require Import Assoc.
-From PC.Sup Require Import Model Monitors Check LemC04l RelC04 EnC04 EnC04p EnC04b.
+From PC.Sup Require Import Model Monitors Check LemC04l RelC04 EnC04 EnC04p EnC04b EnC04q EnC04c EnC04d.
 Import ListNotations.
 
 (* for ALL configurations (any dependency graph, policies, exit_on_* settings, several triggers),
@@ -133,6 +133,63 @@ Theorem C04_progress_modulo_busy : forall cs ord evs s,
      (exists i x, get th (thinst s) = Some i /\ get i (insts s) = Some x /\ own_event (pc x) e = true)).
 Proof. exact progress_modulo_busy. Qed.
 Print Assumptions C04_progress_modulo_busy.
+
+(* ---- invariants of reachable states used by the progress theorem (each holds after every accepted history) -- *)
+
+(* An instance that waits for a dependency waits for an EXISTING instance j of exactly the awaited name k, k is
+   a configured dependency of the waiter and c is its configured condition. *)
+Theorem C04_blocked_on_configured_dependency : forall cs ord evs s i x k c j todo,
+  accept (init cs ord) evs = Some s -> get i (insts s) = Some x -> pc x = IBlocked k c j todo ->
+  (exists y, get j (insts s) = Some y /\ nm y = k) /\ dep_cond (cf x) k = Some c.
+Proof. intros cs ord evs s i x k c j todo H. exact (k_blk _ (K_reach cs ord evs s H) i x k c j todo). Qed.
+Print Assumptions C04_blocked_on_configured_dependency.
+
+(* The registries only name existing instances of that name. *)
+Theorem C04_registries_name_instances : forall cs ord evs s k j,
+  accept (init cs ord) evs = Some s -> get k (running s) = Some j \/ get k (donereg s) = Some j ->
+  exists y, get j (insts s) = Some y /\ nm y = k.
+Proof. intros cs ord evs s k j H [E|E]; [exact (k_run _ (K_reach cs ord evs s H) k j E)|exact (k_done _ (K_reach cs ord evs s H) k j E)]. Qed.
+Print Assumptions C04_registries_name_instances.
+
+(* A goroutine in Wait() has a command that is alive or whose exit is waiting to be collected. *)
+Theorem C04_alive_has_command : forall cs ord evs s i x,
+  accept (init cs ord) evs = Some s -> get i (insts s) = Some x -> pc x = IAlive -> alive x = true \/ exited x <> None.
+Proof. intros cs ord evs s i x H. exact (k_alive _ (K_reach cs ord evs s H) i x). Qed.
+Print Assumptions C04_alive_has_command.
+
+(* Every instance has a goroutine or is still in runProcess; a pending waitGroup.Done() sits exactly at inst_exit. *)
+Theorem C04_instance_begun_or_staged : forall cs ord evs s i x,
+  accept (init cs ord) evs = Some s -> get i (insts s) = Some x ->
+  (exists t, get t (thinst s) = Some i) \/ (exists v, get i (stage s) = Some v).
+Proof. intros cs ord evs s i x H. exact (k_ex _ (K_reach cs ord evs s H) i x). Qed.
+Print Assumptions C04_instance_begun_or_staged.
+
+(* ---- progress of the quiet supervisor ------------------------------------------------------------------- *)
+(* "Run() never waits forever on a process that can no longer start", as a deadlock-freedom (enabledness)
+   statement: for an acyclic dependency graph (ranked cs rank, the definition of Sup/EnC12.v), in every reachable
+   state s of a QUIET supervisor -
+     q_cmd   no command is alive and no exit is waiting to be collected,
+     q_lock  the registry lock is free,
+     q_stage no instance is half-created (every stage entry is at 3 = spawned),
+     q_idle  no instance goroutine is inside a stop execution or ShutDownProject,
+     q_gone  every goroutine that is gone has ended its process (l_done) -
+   in which something of Run()'s wait group is outstanding (~ wg_quiet s), some instance-side step is enabled:
+   a spawned goroutine begins, or a goroutine takes one of its own events (own_event2 = the table own_event plus
+   the first registry read EDoneGet of a dependency lookup, which is always possible).  Proof: induction along
+   the dependency order - a blocked instance's dependency instance exists (C04_blocked_on_configured_dependency)
+   and is ended (then the latch is released, R6) or, by induction, something is enabled.
+   Where Run() itself stands is irrelevant for the statement (with wg_quiet it could return: C04_run_can_return).
+   q_stage and q_gone are premises because the corresponding invariants are FALSE in the model: a thread may
+   create several instances of one name and spawn only one (an orphan at stage 2 is registered and can be waited
+   for), and an instance stopped while Pending whose stop concluded "not running" (known windows F32/F38) leaves
+   without ever being ended.  This is an enabledness statement, not a fairness/termination proof. *)
+Theorem C04_progress_partial : forall cs ord rank evs s,
+  ranked cs rank -> accept (init cs ord) evs = Some s -> quiet s -> ~ wg_quiet s ->
+  exists th e s', step s (th, e) = Some s' /\
+    ((exists i, e = EBegin i /\ get th (thinst s) = None) \/
+     (exists i x, get th (thinst s) = Some i /\ get i (insts s) = Some x /\ own_event2 (pc x) e = true)).
+Proof. exact progress_partial. Qed.
+Print Assumptions C04_progress_partial.
 
 (* Regression for the former model looseness "EBegin without ESpawn": the 10-event history in which a
    goroutine that was never added to the wait group still had its command alive at Run()'s return is
